@@ -1833,6 +1833,8 @@ class Cap(object):
                     out["norm"].append(s)
             return out
         if k == "return":
+            if self.loop_stack:
+                self.on_break(n, st)          # a return from inside a loop leaves it as well
             if n.get("val") is not None:
                 for s, v in self.ev(n["val"], st):
                     s.ret = v
@@ -1851,7 +1853,11 @@ class Cap(object):
         if k in ("while", "for", "do"):
             return self.exec_loop(n, st)
         if k == "switch":
-            return self.exec_switch(n, st)
+            self.loop_stack.append(n)          # a `break` inside leaves the switch, not the enclosing loop
+            try:
+                return self.exec_switch(n, st)
+            finally:
+                self.loop_stack.pop()
         if k in ("case", "default"):
             return self.exec(n["sub"], st) if n.get("sub") is not None else {"norm": [st], "brk": [], "cont": [], "ret": []}
         if k == "label":
